@@ -80,7 +80,7 @@ def judge(run, scn, meta, res, section='state'):
                  dict(case, changed=[(p, before.get(p), after.get(p)) for p in ch[:8]]), key='outside-touched', section=section)
     # trace: the targets of the removals
     bad = []
-    for name, args, r in o['trace']:
+    for name, args, r in (t[:3] for t in o['trace']):
         if name in ('remove', 'unlink', 'rmtree'):
             p = args[0]
             phys = engine.physical(before, os.path.normpath(p)) if p.startswith('/') else p
